@@ -386,6 +386,12 @@ class ClassUnit:
                         raise Untranslatable('identity comparison')
                     same = (tl == tr == 'none')
                     return ('blit', same if isinstance(op, ast.Is) else not same)
+                if isinstance(op, (ast.In, ast.NotIn)) and len(n.ops) == 1:
+                    # membership of a string in a list of strings (never containment in another string)
+                    if right[0] == 'lst' and right[2] == ELEM_STR and ty_of(left) == 'str':
+                        e_ = ('var', '(List.contains %s %s)' % (right[1], pr(left)), 'bool')
+                        return e_ if isinstance(op, ast.In) else ('not', e_)
+                    raise Untranslatable('membership test in a %s' % (right[0] if right[0] != 'var' else ty_of(right)))
                 if type(op) not in ops:
                     raise Untranslatable('comparison %s' % type(op).__name__)
 
@@ -624,15 +630,7 @@ class ClassUnit:
         if isinstance(s, ast.Return):
             return ('ret', None if s.value is None else self.ev(s.value, ctx, depth), ctx)
         if isinstance(s, ast.Raise):
-            exc = s.exc
-            name = None
-            if isinstance(exc, ast.Call) and isinstance(exc.func, ast.Name):
-                name = exc.func.id
-            elif isinstance(exc, ast.Name):
-                name = exc.id
-            if name not in ('ValueError', 'KeyError', 'AttributeError', 'TypeError'):
-                raise Untranslatable('raise of %s' % (name,))
-            return ('raise', name, ctx)
+            return ('raise', raised_class(s), ctx)
         if isinstance(s, ast.Expr) and isinstance(s.value, ast.Call):
             f = s.value.func
             if isinstance(f, ast.Attribute) and isinstance(f.value, ast.Name) and f.value.id == ctx.self_name \
@@ -975,6 +973,19 @@ UNITS = [POSITION]
 # kernel units: functions whose `self` attributes are plain binders, and "kernels" (the computation a method performs
 # up to a designated sink, with calls into other components replaced by parameters)
 
+def raised_class(s):
+    """the exception class a `raise` statement names (the error kind of the tie comes from the source, never assumed)"""
+    exc = s.exc
+    name = None
+    if isinstance(exc, ast.Call) and isinstance(exc.func, ast.Name):
+        name = exc.func.id
+    elif isinstance(exc, ast.Name):
+        name = exc.id
+    if name not in ERR:
+        raise Untranslatable('raise of %s' % (name,))
+    return name
+
+
 class KFn:
     def __init__(self, key, path, cls, py, lean, binders, fields, params, ret, statement, defs, kind='pure', subst=(), sink=None,
                  loop_bind=None, obj_types=None, expr_subst=None, proof=None, components=None):
@@ -1055,7 +1066,7 @@ def run_kernel(cu, stmts, ctx, fn, depth=0):
             return run_kernel(cu, (list(s.body) if c[1] else list(s.orelse)) + rest, ctx, fn, depth)
         return ('if', c, run_kernel(cu, list(s.body) + rest, ctx.copy(), fn, depth), run_kernel(cu, list(s.orelse) + rest, ctx.copy(), fn, depth))
     if isinstance(s, ast.Raise):
-        return ('raise', 'ValueError', ctx)
+        return ('raise', raised_class(s), ctx)
     if isinstance(s, ast.Return):
         raise Untranslatable('return before the sink')
     if isinstance(s, ast.Expr):
@@ -1114,7 +1125,7 @@ def translate_kfn(fn):
                 if t[2].fields[a] is not fields[a]:
                     raise Untranslatable('attribute write')
             return ('(.ok %s)' % val(t[1])) if exc else val(t[1])
-        lt = {'num': 'α', 'int': 'Int', 'dict:num': 'Qs.Weights α', 'struct': 'Qs.Txn α', 'list:str': 'List String'}[rt]
+        lt = {'num': 'α', 'int': 'Int', 'dict:num': 'Qs.Weights α', 'struct': 'Qs.Txn α', 'list:str': 'List String', 'str': 'String'}[rt]
         rty = ('Except Err (%s)' % lt) if exc else lt
         body = pr_tree(tree, leaf, 1)
         return 'def %s%s : %s :=\n  %s\n' % (fn.lean.split('.')[-1], binders, rty, body), None
@@ -1144,6 +1155,19 @@ def _sizer_sink(cu, s, ctx):
         except Untranslatable:
             raise
     return None
+
+
+def _master_sink(cu, s, ctx):
+    """the statement that writes the master cash balance (`self.cash_balances[self.base_currency] += / -= / = ...`)"""
+    tgt = s.target if isinstance(s, ast.AugAssign) else (s.targets[0] if isinstance(s, ast.Assign) and len(s.targets) == 1 else None)
+    if tgt is None or ast.unparse(tgt) != 'self.cash_balances[self.base_currency]':
+        return None
+    if isinstance(s, ast.Assign):
+        return cu.ev(s.value, ctx, 0)
+    ops = {ast.Add: '+', ast.Sub: '-', ast.Mult: '*', ast.Div: '/'}
+    if type(s.op) not in ops:
+        raise Untranslatable('augmented assignment %s' % type(s.op).__name__)
+    return ('bin', ops[type(s.op)], cu.ev(s.target, ctx, 0), cu.ev(s.value, ctx, 0))
 
 
 def _txn_sink(cu, s, ctx):
@@ -1184,6 +1208,24 @@ KFNS = [
         binders=[('asset', 'String'), ('q', 'Int'), ('x', 'α')], fields={}, params=FEE_PARAMS, ret='num',
         statement='(asset : String) (q : Int) (x : α) :\n    GEN (α := α) asset q x = Qs.FeeModel.totalCost (.zero : Qs.FeeModel α) x',
         defs=['Qs.FeeModel.totalCost']),
+    KFn('Broker.checkFunds', 'qstrader/broker/simulated_broker.py', 'SimulatedBroker', '_set_initial_funds', 'Broker.checkFunds',
+        binders=[('funds', 'α')], fields={}, params=[('initial_funds', V('funds', 'num'))], ret='exc:num',
+        statement='(funds : α) :\n    GEN funds = Qs.Broker.checkFunds funds', defs=['Qs.Broker.checkFunds']),
+    KFn('Broker.checkCurrency', 'qstrader/broker/simulated_broker.py', 'SimulatedBroker', '_set_base_currency', 'Broker.checkCurrency',
+        binders=[('supported', 'List String'), ('cur', 'String')], fields={}, params=[('base_currency', V('cur', 'str'))], ret='exc:str',
+        expr_subst={"settings.SUPPORTED['CURRENCIES']": ('lst', 'supported', ELEM_STR)},
+        statement='(supported : List String) (cur : String) :\n    GEN supported cur = Qs.Broker.checkCurrency supported cur',
+        defs=['Qs.Broker.checkCurrency']),
+    KFn('Broker.subscribeAccount', 'qstrader/broker/simulated_broker.py', 'SimulatedBroker', 'subscribe_funds_to_account',
+        'Broker.subscribeAccount', binders=[('master', 'α'), ('amount', 'α')], fields={}, params=[('amount', V('amount', 'num'))],
+        ret='exc:num', kind='kernel', sink=_master_sink, expr_subst={'self.cash_balances[self.base_currency]': V('master', 'num')},
+        statement='(master amount : α) :\n    GEN master amount = Qs.Broker.subscribeAccountMaster master amount',
+        defs=['Qs.Broker.subscribeAccountMaster']),
+    KFn('Broker.withdrawAccount', 'qstrader/broker/simulated_broker.py', 'SimulatedBroker', 'withdraw_funds_from_account',
+        'Broker.withdrawAccount', binders=[('master', 'α'), ('amount', 'α')], fields={}, params=[('amount', V('amount', 'num'))],
+        ret='exc:num', kind='kernel', sink=_master_sink, expr_subst={'self.cash_balances[self.base_currency]': V('master', 'num')},
+        statement='(master amount : α) :\n    GEN master amount = Qs.Broker.withdrawAccountMaster master amount',
+        defs=['Qs.Broker.withdrawAccountMaster']),
     KFn('DW.checkBuffer', 'qstrader/portcon/order_sizer/dollar_weighted.py', 'DollarWeightedCashBufferedOrderSizer', '_check_set_cash_buffer',
         'DW.checkBuffer', binders=[('b', 'α')], fields={}, params=[('cash_buffer_percentage', V('b', 'num'))], ret='exc:num',
         statement='(b : α) :\n    GEN b = Qs.dwCheckBuffer b', defs=['Qs.dwCheckBuffer']),
@@ -1410,7 +1452,7 @@ def run_effects(cu, stmts, ctx, fn, depth=0):
     if isinstance(s, ast.Return):
         return ('ret', None, ctx)
     if isinstance(s, ast.Raise):
-        return ('raise', 'ValueError', ctx)
+        return ('raise', raised_class(s), ctx)
     if isinstance(s, ast.For):
         if fn.loop_bind is None or s.orelse:
             raise Untranslatable('loop')
@@ -1458,7 +1500,7 @@ def translate_efn(fn):
         def leaf(t):
             f = t[2].fields
             ev = f.get('__event__')
-            parts = ['err := %s' % ((t[1][4:] if t[1].startswith('DYN:') else 'some .value') if t[0] == 'raise' else 'none')]
+            parts = ['err := %s' % ((t[1][4:] if t[1].startswith('DYN:') else 'some ' + ERR[t[1]]) if t[0] == 'raise' else 'none')]
             for a, v0 in fn.fields.items():
                 parts.append('%s := %s' % (fn.view[a], as_num(f[a]) if ty_of(v0) == 'num' else pr(f[a])))
             if ev is None:
@@ -1626,7 +1668,7 @@ def translate_handler():
             if isinstance(st, ast.Return):
                 return ('ret', None, ctx)
             if isinstance(st, ast.Raise):
-                return ('raise', 'ValueError', ctx)
+                return ('raise', raised_class(st), ctx)
             raise Untranslatable('statement %s' % type(st).__name__)
 
         orig_ev = cu.ev
@@ -1671,7 +1713,7 @@ def translate_handler():
                 sl_txt = 'slot'
             else:
                 sl_txt = 'none' if sl == 'abs' else '(some %s)' % sl
-            err = (t[1][4:] if t[1].startswith('DYN:') else 'some .value') if t[0] == 'raise' else 'none'
+            err = (t[1][4:] if t[1].startswith('DYN:') else 'some ' + ERR[t[1]]) if t[0] == 'raise' else 'none'
             return '(%s, %s)' % (sl_txt, err)
 
         def prt(t, ind):
